@@ -203,8 +203,9 @@ def run(ctx):
     want = {"rev-string: Revision{-3}.String()", 'rev-rejects-valid: ParseRevision("x0")'}
     # (only demanded when the real code agreed with the table: if it did not, the differences reported above already
     #  show that the binding is live, and a canary entry could coincide with what a broken tree really does)
-    if tst["mismatches"] == 0 and not want <= ckeys:
-        raise InfraError("binding canary: corrupted table entries were not reported by the driver (got %s)" % sorted(ckeys))
+    canary_trouble = []      # presence tests; fatal (exit 2) only when the run found no violation at all, see the end
+    if not want <= ckeys:
+        canary_trouble.append("corrupted table entries %s not among the differences reported by the driver" % sorted(want - ckeys))
 
     # ---- 4. laws directly on the real outputs
     lrows = rt.drive(ctx, binary, "TestVerifC35Laws", os.path.join(outdir, "laws.ndjson"),
@@ -250,8 +251,8 @@ def run(ctx):
     cbad = sorted(b["case"] for b in cv["bad"])
     canary_cases = sorted({c_rev["case"], c_ep["case"], c_ep2["case"]})
     # (demanded only when every genuine observation was accepted, for the same reason as above)
-    if rand_bad == 0 and cbad != canary_cases:
-        raise InfraError("binding canary: corrupted observations %s, TraceRevEpoch rejected %s" % (canary_cases, cbad))
+    if not set(canary_cases) <= set(cbad):
+        canary_trouble.append("corrupted observations %s, TraceRevEpoch rejected only %s" % (canary_cases, cbad))
     if checked != nobs or nobs != nrand:
         raise InfraError("I->T: %d observations requested, %d written, %d validated" % (nrand, nobs, checked))
     kinds = {}
@@ -286,6 +287,8 @@ def run(ctx):
             seen.add(v.key)
             uniq.append(v)
     uniq.sort(key=lambda v: (len(v.key), v.key))
+    if canary_trouble and not uniq:
+        raise InfraError("binding canary: " + "; ".join(canary_trouble))
 
     law_evals = lst["revisions"] * 5 + lst["strings"] + lst["epochs"] + lst["valid_epochs"] * 4 + lst["canread_pairs"] + lst["documents"]
     cov = {
